@@ -24,10 +24,14 @@ class C11(BindSpec):
         if tier == "quick":
             return [Stream("valid", "bind.valid", 1500, envs=ENVS, timeout=0.05),
                     Stream("malformed", "bind.malformed", 700, envs=ENVS, timeout=0.05),
-                    Stream("anydest", "bind.any", 400, envs=ENVS, timeout=0.05)]
+                    Stream("anydest", "bind.any", 400, envs=ENVS, timeout=0.05),
+                    Stream("utf8bulk", "bind.utf8bulk", 18, envs=ENVS, timeout=0.5),
+                    Stream("b64esc", "bind.b64esc", 400, envs=ENVS, timeout=0.05)]
         return [Stream("valid", "bind.valid", 40000, envs=ENVS, timeout=0.02),
                 Stream("malformed", "bind.malformed", 20000, envs=ENVS, timeout=0.02),
-                Stream("anydest", "bind.any", 8000, envs=ENVS, timeout=0.02)]
+                Stream("anydest", "bind.any", 8000, envs=ENVS, timeout=0.02),
+                Stream("utf8bulk", "bind.utf8bulk", 300, envs=ENVS, timeout=0.5),
+                Stream("b64esc", "bind.b64esc", 8000, envs=ENVS, timeout=0.02)]
 
     def judge(self, case, sonic, model):
         out = []
